@@ -688,9 +688,21 @@ func RunFrozen(c *Ctx) {
 		counts[fs.typ]++
 		root := fi.Root().Name
 		reason := ""
+		// a helper introduced after the baseline counts for the functions that call it (all of them must be constructors)
+		viaHelper := false
+		if attr := c.attributed(fi); len(attr) > 0 && !(len(attr) == 1 && attr[0] == root) {
+			viaHelper = true
+			for _, a := range attr {
+				if !contains(fs.constructors, a) {
+					viaHelper = false
+				}
+			}
+		}
 		switch {
 		case contains(fs.constructors, root):
 			reason = "constructor " + root
+		case viaHelper:
+			reason = "helper " + root + " called only from constructors"
 		case isOptionLiteral(fi) || (fi.Parent != nil && isOptionLiteral(fi.Parent)):
 			reason = "option literal returned by " + root + " (applied during construction)"
 		case contains(fs.lazy, fi.Name):
